@@ -125,7 +125,7 @@ pub proof fn lemma_count_zero(n: nat)
     }
 }
 
-//@invpart safe @C17 indices and counters stay in range; a live member's talkback is stored
+//@invpart safe @C17,C04 indices and counters stay in range; a live member's talkback is stored
 //@invpart cnt @C08 the counters count the members that greeted / completed
 //@invpart proto @C01 greeting, link phases, counters and the `ended` flag agree
 //@invpart term @C02 at most one termination per link
@@ -196,8 +196,8 @@ pub open spec fn upsrc_gate<T>(s: UpSrc, k: int, h: Heap, g: G<T>, c: Cap, m: Me
 pub open spec fn all_completed<T>(g: G<T>) -> bool { forall|j: int| 0 <= j < g.ups.len() ==> (#[trigger] g.ups[j]).phase == Up::EndedBySelf }
 pub open spec fn none_live<T>(g: G<T>) -> bool { forall|j: int| 0 <= j < g.ups.len() ==> (#[trigger] g.ups[j]).phase != Up::Live }
 
-//@include env_dn.rs OP=merge TP=T G=G<T> GNAME=G HEAP=Heap O=T ORPHAN="none_live(g)" QUIET="quiet(g)" SINKGATE="k == $GATE_MERGE_DONE ==> (m is Terminate ==> all_completed(g))"
-//@include env_upn.rs OP=merge TP=T G=G<T> GNAME=G HEAP=Heap I=T
+//@include env_dn.rs OP=merge TP=T G=G<T> GNAME=G HEAP=Heap O=T ORPHAN="none_live(g)" QUIET="quiet(g)" LITE=false SINKGATE="k == $GATE_MERGE_DONE ==> (m is Terminate ==> all_completed(g))"
+//@include env_upn.rs OP=merge TP=T G=G<T> GNAME=G HEAP=Heap I=T LITE=false LATE=false
 
 #[verifier::exec_allows_no_decreases_clause]
 #[verifier::loop_isolation(false)]
